@@ -219,6 +219,7 @@ def units(tier):
     wrap("C04.do_run.component_cache_invalidated", unit_do_run_tail)
     from props import c04_tidy as TD
     wrap("C04.tidy_model.rebinds_after_model_change", TD.unit_tidy_model)
+    wrap("C04.engine.no_decision_keyed_on_the_per_call_simulation_number", TD.unit_no_call_local_keys)
     from props import saverestore as SR
     wrap("C04.engine.save_restore_brackets", SR.unit_save_restore, "C04.engine.save_restore_brackets", ["src/phreeqcpp/tidy.cpp", "src/phreeqcpp/print.cpp", "src/phreeqcpp/mainsubs.cpp", "src/phreeqcpp/ReadClass.cxx"])
     return us
